@@ -422,6 +422,18 @@ def run_misc(inp):
                                    "t1": float(a.theta1), "t2": float(a.theta2)}
             else:
                 out["geodesic"] = {"path": np.asarray(a.get_path().vertices, float).tolist()}
+        # the bi-infinite geodesic through the two points (Geodesic object: two ideal endpoints)
+        if model != "klein":
+            npat = len(d.ax.patches)
+            d.draw_geodesic(seg.geodesic())
+            a = d.ax.patches[-1] if len(d.ax.patches) > npat else None
+            if a is not None and isinstance(a, matplotlib.patches.Arc):
+                out["full_geodesic"] = {"centre": [float(a.center[0]), float(a.center[1])], "w": float(a.width), "h": float(a.height),
+                                        "t1": float(a.theta1), "t2": float(a.theta2)}
+            elif a is not None:
+                out["full_geodesic"] = {"path": np.asarray(a.get_path().vertices, float).tolist()}
+            else:
+                out["full_geodesic"] = {"none": True}
         d.draw_point(H.Point(np.array(inp["pts"]), model="klein"))
         out["points"] = np.asarray(d.ax.lines[-1].get_xydata(), float).tolist()
         if model == "klein":
@@ -434,7 +446,9 @@ def run_misc(inp):
             if len(d.ax.collections) > ncol:
                 c = d.ax.collections[-1]
                 w = np.asarray(c.get_widths() if hasattr(c, "get_widths") else 2 * c._widths, float)
-                out["horo"] = {"centre": np.asarray(c.get_offsets(), float)[0].tolist(), "diam": float(w[0])}
+                hh = np.asarray(c.get_heights() if hasattr(c, "get_heights") else 2 * c._heights, float)
+                out["horo"] = {"centre": np.asarray(c.get_offsets(), float)[0].tolist(), "diam": float(w[0]), "height": float(hh[0]),
+                               "angle": float(np.asarray(c.get_angles() if hasattr(c, "get_angles") else c._angles, float).reshape(-1)[0])}
             elif len(d.ax.patches) > npat:
                 r_ = d.ax.patches[-1]
                 out["horo"] = {"rect_y": float(r_.get_y())}
@@ -526,6 +540,27 @@ def judge_misc(inp, obs, lr):
         mid = c + r * np.array([math.cos(math.radians(g["t1"] + ext / 2)), math.sin(math.radians(g["t1"] + ext / 2))])
         if not in_region(model, mid, 1e-6):
             return {"expected": "arc inside the model's region", "observed": mid.tolist(), "tags": dict(tags, what="arc side")}
+    if model != "klein" and "full_geodesic" in obs:
+        fg = obs["full_geodesic"]
+        ref = ref_geodesic(model, a, b)
+        if ref is not None and ref[1] < RTHR * 0.9:
+            c, r = ref
+            tol = 1e-4 * (1 + r)
+            if "centre" not in fg:
+                return {"expected": {"arc of": [c.tolist(), r]}, "observed": fg, "tags": dict(tags, what="geodesic not drawn as arc")}
+            if abs(fg["w"] - 2 * r) > 2 * tol or np.linalg.norm(np.array(fg["centre"]) - c) > tol:
+                return {"expected": {"centre": c.tolist(), "radius": r}, "observed": fg, "tags": dict(tags, what="geodesic circle")}
+            # the whole geodesic: from ideal point to ideal point, inside the region, containing both points
+            ext = (fg["t2"] - fg["t1"]) % 360.0
+            ends = [c + r * np.array([math.cos(math.radians(t)), math.sin(math.radians(t))]) for t in (fg["t1"], fg["t2"])]
+            on_bdry = all((abs(np.linalg.norm(e) - 1) < 1e-3) if model == "poincare" else (abs(e[1]) < 1e-3 * (1 + r)) for e in ends)
+            mid = c + r * np.array([math.cos(math.radians(fg["t1"] + ext / 2)), math.sin(math.radians(fg["t1"] + ext / 2))])
+            def inside_arc(p):
+                t = math.degrees(math.atan2(p[1] - c[1], p[0] - c[0]))
+                return ((t - fg["t1"]) % 360.0) <= ext + 1e-3
+            if not (on_bdry and in_region(model, mid, 1e-6) and (model != "poincare" or mid @ mid < 1) and inside_arc(a) and inside_arc(b)):
+                return {"expected": "arc between the two ideal endpoints, inside the region, through both points",
+                        "observed": {"arc": fg, "ends": [e.tolist() for e in ends], "mid": mid.tolist()}, "tags": dict(tags, what="geodesic extent")}
     if not close(obs["points"], tr(inp["pts"]), 1e-8):
         return {"expected": tr(inp["pts"]).tolist(), "observed": obs["points"], "tags": dict(tags, what="points")}
     if model == "klein":
@@ -551,7 +586,8 @@ def judge_misc(inp, obs, lr):
         if c is not None and rho < RTHR * 0.99:
             if "centre" not in obs["horo"]:
                 return {"expected": {"centre": c.tolist(), "diam": 2 * rho}, "observed": obs["horo"], "tags": dict(tags, what="horocycle missing")}
-            if np.linalg.norm(np.array(obs["horo"]["centre"]) - c) > 1e-4 * (1 + rho) or abs(obs["horo"]["diam"] - 2 * rho) > 2e-4 * (1 + rho):
+            if np.linalg.norm(np.array(obs["horo"]["centre"]) - c) > 1e-4 * (1 + rho) or abs(obs["horo"]["diam"] - 2 * rho) > 2e-4 * (1 + rho) \
+                    or abs(obs["horo"]["height"] - 2 * rho) > 2e-4 * (1 + rho):
                 return {"expected": {"centre": c.tolist(), "diam": 2 * rho}, "observed": obs["horo"], "tags": dict(tags, what="horocycle")}
     for nm, what in obs["rejected"]:
         if what != "GeometryError":
